@@ -1,4 +1,5 @@
 import Skc.Lemmas.Greedy
+import Skc.Lemmas.Cbs
 
 /-! # C09 — circular binary segmentation reports greedy disjoint above-threshold anomalies
 
@@ -12,5 +13,63 @@ theorem cbs_threshold_monotone {α : Type} [LinearOrder α] [Zero α]
     (scores : List α) :
     ∀ a ∈ greedyAnoms ivs inner thr₂ fuel scores, a ∈ greedyAnoms ivs inner thr₁ fuel scores :=
   fun _ ha => (greedyAnoms_prefix ivs inner thr₁ thr₂ h fuel scores).subset ha
+
+/-- **C09, admissible inner intervals**: exactly the `[i, j)` of length `≥ m` strictly inside the
+    candidate `[s, e)` that leave at least `m` surrounding samples. -/
+theorem cbs_inner_intervals (s e m i j : Nat) :
+    (i, j) ∈ anomalyIntervals s e m ↔
+      s < i ∧ i + m ≤ j ∧ j < e ∧ m ≤ (e - j) + (i - s) :=
+  mem_anomalyIntervals s e m i j
+
+/-- a candidate has an admissible inner interval iff it is long enough: `e - s ≥ max(2m, 3)`
+    (for `m ≥ 1`).  This is why candidates of length 2 (possible for `min_segment_length = 1`)
+    are skipped with score 0. -/
+theorem cbs_candidates_nonempty (s e m : Nat) (hm : 1 ≤ m) :
+    anomalyIntervals s e m ≠ [] ↔ s + 2 * m ≤ e ∧ s + 3 ≤ e := by
+  constructor
+  · intro h
+    obtain ⟨⟨i, j⟩, hij⟩ := List.exists_mem_of_ne_nil _ h
+    have := (mem_anomalyIntervals s e m i j).1 hij
+    omega
+  · intro ⟨h1, h2⟩ hnil
+    have : (s + 1, s + 1 + m) ∈ anomalyIntervals s e m := by
+      rw [mem_anomalyIntervals]
+      refine ⟨by omega, by omega, ?_, ?_⟩
+      · by_cases hm1 : m = 1
+        · subst hm1; omega
+        · omega
+      · omega
+    rw [hnil] at this
+    simp at this
+
+/-- **C09, per-candidate score and inner interval**: maximum and argmax over the admissible inner
+    intervals. -/
+theorem cbs_candidate_argmax {α : Type} [LinearOrder α] (f : Nat × Nat → α)
+    (l : List (Nat × Nat)) :
+    (argmaxCands f l = none ↔ l = []) ∧
+    ∀ c v, argmaxCands f l = some (c, v) → c ∈ l ∧ v = f c ∧ ∀ c' ∈ l, f c' ≤ v :=
+  argmaxCands_spec f l
+
+/-- **C09, greedy selection**: every reported anomaly scores above the threshold; every
+    above-threshold candidate overlaps a reported anomaly; reported anomalies are pairwise
+    disjoint. -/
+theorem cbs_greedy {α : Type} [LinearOrder α] [Zero α]
+    (ivs inner : List (Nat × Nat)) (scores : List α) (thr : α)
+    (hthr : 0 ≤ thr) (hlen : scores.length = ivs.length)
+    (hin : ∀ (i : Nat) (v : α), scores[i]? = some v → thr < v →
+      (ivs.getD i (0, 0)).1 < (inner.getD i (0, 0)).1 ∧
+      (inner.getD i (0, 0)).1 < (inner.getD i (0, 0)).2 ∧
+      (inner.getD i (0, 0)).2 < (ivs.getD i (0, 0)).2) :
+    let idx := greedyGen (killOverlap ivs inner) thr ivs.length scores
+    (∀ i ∈ idx, ∃ v, scores[i]? = some v ∧ thr < v) ∧
+    (∀ (j : Nat) (v : α), scores[j]? = some v → thr < v →
+        ∃ i ∈ idx, (ivs.getD j (0, 0)).1 < (inner.getD i (0, 0)).2 ∧
+          (inner.getD i (0, 0)).1 < (ivs.getD j (0, 0)).2) ∧
+    idx.Pairwise (fun i i' =>
+      (inner.getD i (0, 0)).2 ≤ (inner.getD i' (0, 0)).1 ∨
+      (inner.getD i' (0, 0)).2 ≤ (inner.getD i (0, 0)).1) :=
+  cbs_greedy_sound ivs inner scores thr hthr hlen hin
+
+example : anomalyIntervals 0 6 2 = [(1, 3), (1, 4), (1, 5), (2, 4), (2, 5), (3, 5)] := by decide
 
 end Skc
